@@ -386,7 +386,9 @@ def gen_model(rng: core.Rng, idx: int) -> Dict[str, Any]:
                 falsy[n] = ["len", rng.choice(lens)]
             else:
                 falsy[n] = ["bool", rng.choice(bools)]
-    return {"idx": idx, "names": names, "base": base, "own": own, "required": required, "falsy": falsy, "umid": umid}
+    order = list(names)
+    rng.shuffle(order)      # the order in which the classes are handed to ClassDiagram / ORMatic: any order (280300b orders the output)
+    return {"idx": idx, "names": names, "base": base, "own": own, "required": required, "falsy": falsy, "umid": umid, "order": order}
 
 
 def model_source(md) -> str:
@@ -436,9 +438,10 @@ def install_model(md, workdir) -> None:
     sys.path.insert(0, str(workdir))
     mod = importlib.import_module(modname)
     classes = [getattr(mod, n) for n in md["names"]]
-    # class order as test/conftest.py builds its diagram (reverse name order); with an unmapped intermediate class there is no
-    # inheritance edge and the emission order of the generated module follows the order given here (name order -> NameError at import)
-    o = ORMatic(ClassDiagram(sorted(classes, key=lambda c: c.__name__, reverse=True)))
+    # classes are handed over in the (random) order stored with the model; since repo commit 280300b the generated module is
+    # ordered by the first MAPPED class of each MRO, also across an unmapped intermediate class
+    by_name = {c.__name__: c for c in classes}
+    o = ORMatic(ClassDiagram([by_name[n] for n in md.get("order", md["names"])]))
     o.make_all_tables()
     with open(workdir / f"{modname}_dao.py", "w") as f:
         o.to_sqlalchemy_file(f)
